@@ -210,10 +210,19 @@ structure SecOK {α : Type} (Qe : α → Prop) (h : Header) (s : Sections α) : 
   justLen : s.justice.length = h.just
   fairLen : s.fairness.length = h.fair
 
-theorem sections_sat {α : Type} {p : P α} {Qe : α → Prop}
+/-- the fixed hint cannot panic; the old sum only for at least 17 counts -/
+theorem justiceHint_sat (cfg : Cfg) (ls : List Nat) (hall : ∀ x ∈ ls, x ≤ maxCap) (input : Bytes) :
+    Sat (cfg.justiceSum = false ∧ 17 ≤ ls.length) (justiceHint cfg ls input) (fun _ => True) := by
+  unfold justiceHint
+  split
+  · exact Sat.ok trivial
+  · rename_i hc
+    exact (sumLeft_sat ls hall).weaken (fun h17 => ⟨by simpa using hc, h17⟩)
+
+theorem sections_sat {α : Type} {p : P α} {Qe : α → Prop} (cfg : Cfg)
     (hp : ∀ inp, Sat False (p inp) (fun q => Qe q.1)) (h : Header) (inp : Bytes) :
-    Sat (17 ≤ h.just) (sections p h inp) (fun q => SecOK Qe h q.1) := by
-  have hp' : ∀ inp, Sat (17 ≤ h.just) (p inp) (fun q => Qe q.1) :=
+    Sat (cfg.justiceSum = false ∧ 17 ≤ h.just) (sections cfg p h inp) (fun q => SecOK Qe h q.1) := by
+  have hp' : ∀ inp, Sat (cfg.justiceSum = false ∧ 17 ≤ h.just) (p inp) (fun q => Qe q.1) :=
     fun inp => (hp inp).weaken False.elim
   unfold sections
   apply Sat.bind (collect_sat hp' h.out inp)
@@ -226,7 +235,7 @@ theorem sections_sat {α : Type} {p : P α} {Qe : α → Prop}
     (fun inp => (usizeLine_sat inp).mono (fun q hq => hq.1)) h.just r2)
   rintro ⟨justLen, r3⟩ ⟨hj1, hj2⟩
   dsimp only at hj1 hj2 ⊢
-  apply Sat.bind ((sumLeft_sat justLen hj2).weaken (fun hh => by omega))
+  apply Sat.bind ((justiceHint_sat cfg justLen hj2 r3).weaken (fun hh => ⟨hh.1, by omega⟩))
   intro _ _
   apply Sat.bind (justiceLits_sat hp' justLen r3)
   rintro ⟨justice, r4⟩ ⟨hjl, hjall⟩
